@@ -504,6 +504,12 @@ func (c *checker) checkC14(plan *GCPlan, rep *GCReport) {
 		if rep.BelowErr != "aborted-by-gc" {
 			c.fail(P, "read-below-safe-point-served", "safepoint", "a snapshot read at ts %d below the cached transaction safe point %d returned %q instead of the aborted-by-GC error", rep.SafePoint-1, rep.SafePoint, rep.BelowErr)
 		}
+		for i, r := range rep.BelowSeq {
+			if !strings.HasSuffix(r, "=aborted-by-gc") {
+				c.fail(P, "read-below-safe-point-served", "safepoint-repeated", "read #%d of the sequence %v on one snapshot / transaction at ts %d, below the cached transaction safe point %d, was not refused with the aborted-by-GC error", i+1, rep.BelowSeq, rep.SafePoint-1, rep.SafePoint)
+				break
+			}
+		}
 		if rep.AtErr == "aborted-by-gc" || strings.Contains(rep.AtErr, "GC") {
 			c.fail(P, "read-at-safe-point-refused", "safepoint", "a snapshot read at the safe point %d was refused: %s", rep.SafePoint, rep.AtErr)
 		}
